@@ -13,7 +13,8 @@ RE_REJ = re.compile(r'<<"REJECT", (\d+), (\d+), "(\w+)">>')
 def verdicts(out):
     return [int(x) for x in RE_ACC.findall(out)], [(int(a), int(b), c) for a, b, c in RE_REJ.findall(out)]
 
-RE_CL = re.compile(r'<<"CLAUSES", (\d+), (\d+), <<(.*?)>>>>')
+# (TLC wraps a tuple that is longer than a line: one element per line, "<< " with a blank)
+RE_CL = re.compile(r'<<\s*"CLAUSES",\s*(\d+),\s*(\d+),\s*<<(.*?)>>\s*>>', re.S)
 def clauses(out):
     """(trace id, step) -> names of all the clauses on which that step differs"""
     d = {}
@@ -21,7 +22,7 @@ def clauses(out):
         d[(int(a), int(b))] = re.findall(r'"(\w+)"', c)
     return d
 
-RE_EXP = re.compile(r'<<"EXPECTED", (\d+), "(.*)">>')
+RE_EXP = re.compile(r'<<\s*"EXPECTED",\s*(\d+),\s*"(.*)"\s*>>')
 def expected(out):
     import json
     d = {}
